@@ -74,6 +74,33 @@ V("c11h-module-cache-key-omits-input", "C11", {"rule": "C11h", "contains": "modu
 V("c11h-module-cache-key-complete", "C11", "silent",
   (GSTEPS, "def graph(state: GaussianState, instruction: Instruction, shots: int) -> List[Branch]:", "_graph_cache: dict = {}\n\n\ndef graph(state: GaussianState, instruction: Instruction, shots: int) -> List[Branch]:"),
   (GSTEPS, "    squeezings, interferometer = decompose_adjacency_matrix_into_circuit(\n        adjacency_matrix=instruction._params[\"adjacency_matrix\"],\n        mean_photon_number=instruction._params[\"mean_photon_number\"],\n        connector=state._connector,\n    )\n", "    adjacency_matrix = np.asarray(instruction._params[\"adjacency_matrix\"])\n    key = (adjacency_matrix.shape, adjacency_matrix.tobytes(), instruction._params[\"mean_photon_number\"], type(state._connector))\n    if key not in _graph_cache:\n        _graph_cache[key] = decompose_adjacency_matrix_into_circuit(\n            adjacency_matrix=adjacency_matrix,\n            mean_photon_number=instruction._params[\"mean_photon_number\"],\n            connector=state._connector,\n        )\n    squeezings, interferometer = _graph_cache[key]\n"))
+V("c16e-double-relabelling", "C16", {"rule": "C16e", "contains": "_generate_threshold_samples_using_torontonian"},
+  (GSTEPS, "    modes = instruction.modes\n\n    @lru_cache(state._config.cache_size)\n    def get_probability(", "    modes = instruction.modes\n    measured_state = state.reduced(modes)\n\n    @lru_cache(state._config.cache_size)\n    def get_probability("),
+  (GSTEPS, "        reduced_state = state.reduced(subspace_modes)\n\n        if not is_displaced:\n            return calculate_click_probability_nondisplaced(", "        reduced_state = measured_state.reduced(subspace_modes)\n\n        if not is_displaced:\n            return calculate_click_probability_nondisplaced("))
+V("c16e-reduce-once-then-positions", "C16", "silent",
+  (GSTEPS, "    modes = instruction.modes\n\n    @lru_cache(state._config.cache_size)\n    def get_probability(", "    modes = instruction.modes\n    measured_state = state.reduced(modes)\n\n    @lru_cache(state._config.cache_size)\n    def get_probability("),
+  (GSTEPS, "        reduced_state = state.reduced(subspace_modes)\n\n        if not is_displaced:\n            return calculate_click_probability_nondisplaced(", "        reduced_state = measured_state.reduced(subspace_modes)\n\n        if not is_displaced:\n            return calculate_click_probability_nondisplaced("),
+  (GSTEPS, "            subspace_modes = tuple(modes[:mode_index])", "            subspace_modes = tuple(range(mode_index))"))
+LHAF = "piquasso/_math/hafnian/loop_hafnian.py"
+PHAF = "piquasso/_math/hafnian/plain_hafnian.py"
+V("c04f-loop-hafnian-zero-norm-unguarded", "C04", {"rule": "C04f", "contains": "_scale_matrix_and_diagonal divides"},
+  (LHAF, "    if scale_factor == 0.0:\n        return 1.0\n\n", ""))
+V("c04f-plain-hafnian-zero-norm-unguarded", "C04", {"rule": "C04f", "contains": "hafnian_with_reduction|division"},
+  (PHAF, "        if scale_factor == 0.0:\n            scale_factor = 1.0\n", "", 2))
+V("c04f-guard-by-nonpositive-test", "C04", "silent",
+  (LHAF, "    if scale_factor == 0.0:\n        return 1.0\n\n", "    if scale_factor <= 0.0:\n        return 1.0\n\n"))
+V("c04g-occupation-entry-overwritten", "C04", {"rule": "C04g", "contains": "_prepare_data"},
+  (LHAF, "    occupation_numbers_orig_copy = np.copy(occupation_numbers_orig)\n", "    occupation_numbers_orig_copy = np.copy(occupation_numbers_orig)\n    occupation_numbers_orig_copy[-1] = 0\n"))
+V("c04g-occupation-entry-incremented-explicitly", "C04", "silent",
+  (PHAF, "        new_occupation_numbers[-1] += 1\n", "        new_occupation_numbers[-1] = new_occupation_numbers[-1] + 1\n"))
+COMBI = "piquasso/_math/combinatorics.py"
+V("c06e-divide-once-at-the-end", "C06", {"rule": "C06e", "contains": "arr_comb"},
+  (COMBI, "    prod = np.ones(n.shape, dtype=np.int64)\n\n    for i in range(k):\n        prod *= n - i\n        prod = prod // (i + 1)\n\n    return prod",
+   "    prod = np.ones(n.shape, dtype=np.int64)\n    denominator = 1\n\n    for i in range(k):\n        prod *= n - i\n        denominator *= i + 1\n\n    return prod // denominator"))
+V("c06e-one-statement-step", "C06", "silent",
+  (COMBI, "        prod *= n - i\n        prod = prod // (i + 1)\n", "        prod = prod * (n - i) // (i + 1)\n"))
+V("c06e-scalar-wrong-divisor", "C06", {"rule": "C06e", "contains": "comb"},
+  (COMBI, "        prod *= n - i\n        prod //= i + 1\n", "        prod *= n - i\n        prod //= i + 2\n"))
 # ------------------------------------------------------------------------------------------- C20
 V("c20-sub-add", "C20", {"rule": "C20c", "contains": "Sub"}, (EXPR, "ast.Sub: op.sub", "ast.Sub: op.add"))
 V("c20-lt-le", "C20", {"rule": "C20c", "contains": "Lt"}, (EXPR, "ast.Lt: op.lt", "ast.Lt: op.le"))
